@@ -5,6 +5,8 @@ V='/verif'
 props=[json.loads(l)['id'] for l in open(V+'/properties.jsonl')]
 HOOK_COMMITS=['95dc337']
 C={}
+MOD=dict(C01='m_alloc.go',C02='m_alloc.go',C03='m_layout.go',C04='m_queue.go',C05='m_wakeup.go',C06='m_bytes.go',C07='m_mux.go',C08='m_bytes.go',C09='m_leak.go',C10='m_close.go',C11='m_block.go',C12='m_handshake.go',C13='m_fuzz.go',C14='m_death.go',C15='m_pool.go',C16='m_hotrestart.go',C17='m_heal.go',C18='m_evconn.go',C19='m_netlistener.go',C20='m_callback.go')
+HOLD=set(['C07','C09','C10','C18','C19','C20'])  # builders still working
 def chk(pid,cat,text,note,tech,ref):
     C[pid]=dict(property_id=pid,quick_cmd='./run.sh %s quick'%pid,thorough_cmd='./run.sh %s thorough'%pid,
         evidence_file='evidence/%s.json'%pid,engine='go-harness',
@@ -33,6 +35,66 @@ chk('C15','exploration',
  'SessionManager + Listener in one process; 2-32 concurrent callers loop GetStream/request/reply/PutBack with hostile put-backs (part-read, unflushed, never-looked-at pending message), server-side closes, exhaustion-induced fallback and session kills; owner tags decide exclusivity, unique request ids decide "no bytes from an earlier use", quiesced phases decide clean/live and the accounting active == pooled + held; porcupine on the bare pool ring; race sentinel on push/pop.',
  'Session kills are serialised against stream use (known finding F2 makes overlapping use process-fatal; that is C14\'s subject). In-flight replies to a stream put back without reading are outside the oracle.',
  'runtime monitor: ownership tags, id-echo oracle, quiescent accounting; porcupine; race detector sentinel','4/C15')
+
+chk('C06','exploration',
+ 'Model-based differential testing on real session pairs: generated sequences of every writer call (WriteBytes, Reserve, WriteByte, WriteString, Write, Flush) and reader call (ReadBytes, Peek, Discard, ReadByte, ReadString, Read, ReleasePreviousRead, ReleaseReadAndReuse) with sizes at the class boundaries, six slice-size configurations and four exhaustion levels (hoarded allocator => shm, socket fallback, mixed); a keyed byte function is the reference pipe; Len, Peek-neutrality and counts are checked at every step.',
+ 'One goroutine per stream end (the API does not support concurrent use of one stream); sizes beyond a few MiB not explored; executions run in child processes so a library panic is attributed to the running sequence.',
+ 'reference-model monitor (keyed byte pipe) over generated operation sequences','4/C06')
+chk('C07','exploration',
+ 'One session with 8-256 concurrent streams in both directions, PRNG-sized keyed chunks, close right after the last flush, a hoarder that makes individual messages switch to the socket, tiny queues (queue-full paths), sleeps injected in the wake-up / fallback / close / polling windows; readers check every byte against f(stream, direction, position) and that end-of-stream is only reported at or after the byte count the writer had flushed before Close.',
+ 'Synchronous readers (callback mode is C20); executions whose session dies are discarded; large size classes keep known finding F1 improbable.',
+ 'runtime monitor: keyed byte model per (stream, direction) + flushed-before-close table under stress and injected delays','4/C07')
+chk('C08','exploration',
+ 'A registry of every zero-copy result (ReadBytes/Peek slice + copy) not yet released is re-compared after every step while a scribbler allocates, overwrites (0xEE) and recycles every free buffer (deterministically between steps, and concurrently in stress mode); after release by ReleasePreviousRead / ReleaseReadAndReuse / Close the allocator census must return to baseline.',
+ 'Stress mode keeps >= 256 free slots per class and discards executions with an ABA suspect (known finding F1) as inconclusive; deterministic mode is single-threaded on the allocator.',
+ 'runtime monitor: live-slice registry + scribbler + allocator census','4/C08')
+chk('C09','exploration',
+ 'Random histories over 1-40 streams (opens, writes of any size, flushes also on closed/half-closed streams, partial reads, releases, closes from either side, near-simultaneous closes, tiny queues, hoarder-induced fallback, data for streams the peer just closed, pool-style reuse), single-threaded with a census after every close pair and concurrent; at logical quiescence AllInUsedShareMemory must be 0, every class size == cap and the free-list walk complete.',
+ 'In-process peer; zombies (streams re-created by late data) are drained and closed before the census; leaks needing > 40 streams or > 300 steps not reached.',
+ 'runtime monitor: allocator census + free-list walk at quiescent points over generated histories','4/C09')
+chk('C10','exploration',
+ 'Enumerated scenario table (who closes, when, sync/callback mode, from which goroutine incl. inside OnData/OnRemoteClose, shm/fallback transport) x PRNG timings with sleeps in the close windows; per-stream event records at the API boundary are checked: operations after a local Close fail, the stream leaves the active count, the peer sees end-of-stream after draining and cannot send, states only move forward, exactly one close callback per closure not already known; an aligned close storm exercises the both-ends-at-once race.',
+ 'Interpretation no stricter than the documented deferral of Close during OnData. Operations issued concurrently with a deferred close\'s cleanup are not driven by the harness (F2 family).',
+ 'runtime monitor: API-boundary event records checked against close-protocol rules','4/C10')
+chk('C11','exploration',
+ 'Bounded-progress restatement: for every blocking call (ReadBytes, Peek, Discard, ReadByte, ReadString, Read, Flush on a full queue, AcceptStream, handshake) x releasing event (data, data in two parts, deadline, local/peer stream close, local/peer session close, silent peer) x timing (before the call, inside the test-then-subscribe window held open by a hook, after parking) the call must return within 3 event-loop fences + 5 s of the event, never with ErrTimeout before its deadline.',
+ 'A finite run cannot decide "forever": the bound is the statement. Judged only with a healthy scheduler canary; peer process death as releasing event is C14.',
+ 'runtime monitor: bounded-progress oracle over an enumerated call x event x timing table with a hook-held race window','4/C11')
+chk('C12','fault_enumeration',
+ 'Every pairing of library/raw client and server (file and memfd mapping, protocol 2 and 3, unix and tcp) and, for every step of every exchange and both roles, a peer that stops answering, closes, sends a wrong type or half a message, plus library ends killed or stalled at every handshake hook point: success must give equal min version and the very same inodes mapped in both processes; failure must give an error within the timeout on both ends and a clean census (fds, mappings, /dev/shm files).',
+ 'The fault list is finite and enumerated completely. A peer that answers after the timeout (late answer) is outside the fault model and only probed.',
+ 'fault enumeration with scripted raw peers + process census','4/C12')
+chk('C13','fault_enumeration',
+ 'Structure-aware generated and mutated event streams (17 mutation kinds, every type 0-255, lengths below/above, wrong direction/phase, unknown/closed streams) are fed to live sessions of both roles: directly to handleEvents (consumed bounds, no panic, re-offer rule), through the socket with harness-controlled fragmentation (whole / byte-wise / PRNG cuts must give identical observations) and in the handshake phase; a healthy sibling session must keep echoing and the hosting child must stay alive.',
+ 'Inputs are logged before execution so a dead child is attributed to its last input; hostile contents of shared memory objects are outside the statement.',
+ 'generated hostile inputs against live sessions in child processes + differential fragmentation oracle','4/C13')
+chk('C14','fault_enumeration',
+ 'Survivor and victim nodes (child processes, one library session each) run echo traffic; the victim kills itself or severs the connection at the k-th hit of each hook point it passes (22 handshake steps, flush, wake-up, queue element k, control event k, ...), or is SIGSTOPped/SIGKILLed; the survivor must see its session closed, every pending/later call fail, one close callback per callback stream, no crash or hang, and a clean census after teardown; Session.Close storms (1/2/8 closers, OpenStream/GetMetrics racing) in a child.',
+ 'Known finding F2 (teardown does not wait for users of streams/memory): a survivor that dies inside a user-side stream operation after its teardown began is attributed to F2 by a narrow classifier; quick runs a PRNG-chosen subset of the enumerated list, thorough all of it.',
+ 'fault injection at enumerated hook points in child processes + survivor-side monitors + census','4/C14')
+chk('C16','exploration',
+ 'Old and new listener on one path, SessionManager with 1-4 sessions, tagged replies, client traffic throughout; scenarios: complete hand-over, foreign-epoch restart events and acknowledgements injected deterministically behind the real ones, new server not accepting, client session lost mid-way, two restarts back to back; both sides must leave the hot-restart state within the protocol timeout + slack, pools must carry the announced epoch, old sessions stay usable until the old listener closes, no round trip fails outside the allowed windows.',
+ 'In-process listeners; bounds include the protocol\'s own 2 s timeout; known finding F3 lives in C17.',
+ 'runtime monitor: timeline + tagged round-trip records + state sampling under injected event delays','4/C16')
+chk('C17','exploration',
+ 'Losses (one session, all, three in a row, server gone and back after 1-3 intervals, loss after hot restart) with callers polling GetStream: healed within rebuild interval + 3 s, calls in between fail rather than hang, the servers accepted exactly initial + lost sessions (double rebuild shows as an extra), after SessionManager.Close no watcher goroutine and no new connection.',
+ 'Known finding F3 is expressed by one directed scenario (new-epoch session lost while its predecessor is open). Losses are injected while no caller is inside a stream operation (F2).',
+ 'runtime monitor: accept census, per-call records, goroutine census over injected loss scenarios','4/C17')
+chk('C18','exploration',
+ 'connEventHandler pairs on unix and tcp sockets with minimal socket buffers: write sizes 1 B - 6 MiB (EAGAIN, partial writes), a recording callback consuming PRNG prefixes with hold-back phases (buffer growth past 64 KiB, 1 MiB delivery threshold, shrink after 4 MiB); real sessions with 2-32 concurrent senders against a strict raw event parser; byte-exactness, prefix rule and writer exclusion are checked, in the normal and the race build (different dispatcher source).',
+ 'Connection close is outside the quantifier (bytes written right before a close may be dropped on EPOLLRDHUP: observation only).',
+ 'runtime monitor: byte-exact stream comparison + strict parser + writer-exclusion hook; race build pass','4/C18')
+chk('C19','exploration',
+ 'Listen/Accept over real client sessions: echo with PRNG buffer sizes, closes from either side, deadlines, listener close at any moment incl. non-empty backlog and in-flight streams; per-conn records check the io.Reader/io.Writer contracts, exactly-once Accept, deadline behaviour, Accept unblocking and that sessions end once every conn is closed.',
+ '"as on a socket" is read behaviourally; the error need not implement net.Error.',
+ 'runtime monitor: per-conn contract records + session end census','4/C19')
+chk('C20','exploration',
+ 'Callback streams with four OnData styles (consume all, prefix, blocking read, slow), bursts around the callback duration, Close / peer close at PRNG points, sleeps at the hand-off points of the callback goroutine and before the event loop\'s CAS; a recorder inside OnData checks re-entrancy <= 1 and the keyed byte sequence; at quiescence offered == flushed for open and peer-closed streams.',
+ 'OnData runs on a pool goroutine; sleeps on the event loop are kept <= 200 us.',
+ 'runtime monitor: in-callback recorder (re-entrancy, keyed order) + quiescence predicate under injected delays','4/C20')
+
+import os
+C={p:v for p,v in C.items() if os.path.exists('/verif/harness/'+MOD[p]) and p not in HOLD}
 pending={p:'check under construction in this round (DESIGN.md section 4); not claimed yet' for p in props if p not in C}
 import os
 for p in list(pending):
